@@ -350,8 +350,34 @@ def fallback_scan(ctx, R, rid):
              {m.group(2).split(".")[-1] for a in facts for m in [re.match(r"(is|eq)\((.*),element_type\)$", a)] if m}
         return pk, et
 
+    tables = {}  # module-level constant tables of (parent class, element class, "attribute") rows
+    for nm, val in gs.module.assigns.items():
+        if isinstance(val, (ast.Tuple, ast.List)) and val.elts and all(
+                isinstance(r, (ast.Tuple, ast.List)) and len(r.elts) == 3 and isinstance(r.elts[0], ast.Name) and isinstance(r.elts[1], ast.Name)
+                and isinstance(r.elts[2], ast.Constant) and isinstance(r.elts[2].value, str) for r in val.elts):
+            tables[nm] = [(r.elts[0].id, r.elts[1].id, r.elts[2].value) for r in val.elts]
+
     def probe(st, facts, defs=None):
         if isinstance(st, ast.For) and defs is not None:
+            if isinstance(st.iter, ast.Name) and st.iter.id in tables and isinstance(st.target, ast.Tuple) and len(st.target.elts) == 3:
+                # table-driven dispatch: for (ptype, etype, attr) in TABLE: if <row does not apply>: continue; scan getattr(parent, attr)
+                pv, ev_, av = [norm(t) for t in st.target.elts]
+                inner_hits = []
+
+                def inner_probe(st2, facts2, defs2=None):
+                    if isinstance(st2, ast.For) and norm(st2.iter) in ("getattr(parent, %s)" % av,):
+                        inner_hits.append((st2, facts2))
+                inner_paths = list(stmt_paths(st.body, frozenset(), {}, None, inner_probe, opaque_loops=True))
+                if any(oc is None for oc, fa, df in inner_paths):
+                    return
+                for st2, facts2 in inner_hits:
+                    ties_e = any(re.match(r"(is|eq)\((%s,element_type|element_type,%s)\)$" % (re.escape(ev_), re.escape(ev_)), a) for a in facts2)
+                    ties_p = any(re.match(r"(is|eq|isinstance)\(", a) and re.search(r"(?<![\w.])%s(?![\w])" % re.escape(pv), a) for a in facts2)
+                    if ties_e and ties_p:
+                        for (k_, t_, attr_) in tables[st.iter.id]:
+                            scans.append((st2, "parent." + attr_, norm(st2.target), None,
+                                          frozenset(["isinstance(parent,%s)" % k_, "is(element_type,%s)" % t_])))
+                return
             coll = expand(norm(st.iter), defs)
             scans.append((st, coll, norm(st.target), None, facts))
     paths = list(stmt_paths(gs.node.body, frozenset(), {}, None, probe, opaque_loops=True))
